@@ -158,7 +158,7 @@ def replay(prop, path):
                 return 1
             return 0
         if "messages" in obj:
-            evs, rc, err = run_apidrv(dict(calls=[], fuzz=obj["messages"]), wd, "replay")
+            evs, rc, err = run_apidrv(dict(calls=[], fuzz=obj["messages"]), wd, "replay", dirk=build_dirk() if obj.get("binary") else None)
             for e in evs[-6:]:
                 print(json.dumps(e)[:400])
             print(err[:1500])
